@@ -511,10 +511,11 @@ class FakeHandle(object):
         return n
 
     def sendall(self, data):
-        if self.closed:
-            raise _socket.error(9, 'Bad file descriptor')
-        self.sends += 1
-        self.written += bytes(data)
+        # as the real socket: repeat send() until everything has been accepted
+        data = bytes(data)
+        while data:
+            n = self.send(data)
+            data = data[n:]
 
     # server side
     def feed(self, piece):
@@ -601,7 +602,7 @@ def run_script(script):
     steps = []
     cfg = 'x%s %s (%s)' % (method.encode().hex(), 'T' if success is not None else 'F',
                            ' '.join(str(e[0]) for e in declared))
-    FakeHandle.send_caps = None if script.get('wrap') else script.get('send_caps')
+    FakeHandle.send_caps = script.get('send_caps')
     pf = TBinaryProtocolAcceleratedFactory() if script.get('accel') else TBinaryProtocolFactory()
     ser = ThriftSerializerSink.Builder(protocol_factory=pf)
     if script.get('wrap'):
@@ -613,8 +614,8 @@ def run_script(script):
                 return SocketTransportSink(ScalesSocket(Ep.host, Ep.port), 'c14')
         ser.next_provider = RawProvider()
         tags.add('raw-socket')
-        if script.get('send_caps'):
-            tags.add('partial-sends')
+    if script.get('send_caps'):
+        tags.add('partial-sends')
     tags.add('accel' if script.get('accel') else 'pure-python')
     props = {SinkProperties.Endpoint: Ep, SinkProperties.ServiceInterface: Iface, SinkProperties.Label: 'c14'}
     disp = MessageDispatcher(Iface, ser, None, props)
